@@ -121,6 +121,14 @@ ReplayTables == {[i \in 1..4 |-> IF p[i] \in ClassKeys THEN ClassRow(p[i]) ELSE 
                    r2 \in {[key |-> "M#v2", kind |-> "var", types |-> "M#C2", attrs |-> <<[ty |-> "M#C1", kids |-> <<>>]>>, via |-> "M#C2"]}}
 EmitTables == \A tab \in ReplayTables : PrintT("TABLE " \o ToJson([rows |-> tab, order |-> OrderKeys(tab)]))
 
+\* ---- wide sibling groups: index paths whose last element has two digits sort differently as numbers, as strings and by
+\* length; a group of eleven or twelve siblings below the top level, followed at the same depth by another group
+LeafT(t) == [ty |-> t, kids |-> <<>>]
+WideForests == { << [ty |-> "A", kids |-> [i \in 1..n |-> LeafT(IF i % 2 = 0 THEN "A" ELSE "B")]], [ty |-> "B", kids |-> <<LeafT("A")>>] >> : n \in {10, 11, 12} }
+                \cup { << [ty |-> "B", kids |-> <<LeafT("B")>>], [ty |-> "A", kids |-> [i \in 1..11 |-> LeafT("A")]], [ty |-> "A", kids |-> <<LeafT("B"), LeafT("A")>>] >> }
+WideRebuildFlatten == \A f \in WideForests : Rebuild(Flatten(f)) = f
+EmitWide == \A f \in WideForests : PrintT("FOREST " \o ToJson([forest |-> f, flat |-> Flatten(f)]))
+
 \* ---- what a module is made of.  A class, a function and a type variable are exported as rows of class Symbol, a
 \* variable and an imported name as rows of class Reflection; a module may consist of any non-empty choice of them (a
 \* module of constants has no Symbol row at all, a re-exporting module only imports).  Import is one step per row; the
